@@ -221,6 +221,8 @@ class Joiner:
         mba = {b: a for _, a, b in self.phis}
         self._facts(A, B, self.sa, mab, self.stale_a, self.dead_in_b)
         self._facts(B, A, self.sb, mba, self.stale_b, self.dead_in_a)
+        # candidate order relations for integer phis (Houdini): p vs common symbols, p vs other phis
+        self._phi_relations(mab, mba)
         # definitional equalities for phis
         for p, a, b in self.phis:
             if p in J.lin:
@@ -269,6 +271,46 @@ class Joiner:
                     J.when[p] = w
         J.log = A.log if A.log == B.log else _merge_logs(A.log, B.log)
         return J
+
+    def _phi_relations(self, mab, mba):
+        A, B, J = self.A, self.B, self.J
+        ints = [(p, a, b) for p, a, b in self.phis if J.st.range(p) != (0, 1)]
+        if not ints or len(ints) > 12:
+            return
+        stale = self.stale_a | self.stale_b
+        phi_ids = {p for p, _, _ in self.phis}
+
+        def related(X, x):
+            out = set()
+            base = set(X.term(x).t) | {x}
+            for f in X.facts:
+                if base & set(f.t):
+                    out.update(f.t)
+            return out
+
+        for p, a, b in ints:
+            cands = (related(A, a) | related(B, b) | {a, b}) - phi_ids - stale
+            cands = [t for t in cands if t in A.iv and t in B.iv and not isinstance(t, tuple)]
+            for t in sorted(cands)[:8]:
+                ta, tb = A.term(t), B.term(t)
+                for sign in (1, -1):
+                    for c in (1, 0):
+                        ga = A.term(a).sub(ta).scale(sign).addc(c)
+                        gb = B.term(b).sub(tb).scale(sign).addc(c)
+                        if A.entails(ga) and B.entails(gb):
+                            J.facts.add(J.expand(Lin({p: 1}).sub(Lin({t: 1})).scale(sign).addc(c)))
+                            break
+        for i in range(len(ints)):
+            for j in range(i + 1, len(ints)):
+                p, pa, pb = ints[i]
+                q, qa, qb = ints[j]
+                for sign in (1, -1):
+                    for c in (1, 0):
+                        ga = A.term(pa).sub(A.term(qa)).scale(sign).addc(c)
+                        gb = B.term(pb).sub(B.term(qb)).scale(sign).addc(c)
+                        if A.entails(ga) and B.entails(gb):
+                            J.facts.add(Lin({p: 1}).sub(Lin({q: 1})).scale(sign).addc(c))
+                            break
 
     @staticmethod
     def _mentions(name, v, stale):
